@@ -178,12 +178,12 @@ def run(tier):
             dsc.append(sc)
         # DirectlyPublishQoS0: the callers' goroutines write on whatever base client is current while the reconnect loop
         # replaces and initialises it (SetClient, then Connect -> init) -- several reconnects each
-        for j in range(10 if tier == "quick" else 80):
+        for j in range(16 if tier == "quick" else 80):
             fl = [{"p": "PUBLISH", "n": k, "o": "cutAfter"} for k in (1, 2, 3)][: 2 + j % 2]
             wl = [retry_checks.PUB(1)] * (len(fl) + 1)
             sc = rf.scenario("c10q-%d" % j, wl, ["conn"] * len(wl), fl, opts={"directQoS0": True, "hammerPub": 2 + j % 3, "hammerSleepUs": (1, 5, 20)[j % 3], "connTimeoutMs": 300})
             # ... the handshake held for a moment inside a ConnectOption (after SetClient, before the new client is initialised)
-            sc["reqs"] += [{"k": "sleep", "ms": 2, "at": "connopt:%d" % n_} for n_ in range(3, len(fl) + 3)]
+            sc["reqs"] += [{"k": "sleep", "ms": 5, "at": "connopt:%d" % n_} for n_ in range(3, len(fl) + 3)]
             dsc.append(sc)
         # application-side concurrency on the retrying client: Handle / Ping / sample (Client, Err, Done) while requests run
         for s in rsc:
